@@ -5,6 +5,7 @@ import (
 	_ "verifmc/checks/c06"
 	_ "verifmc/checks/c07"
 	_ "verifmc/checks/c09"
+	_ "verifmc/checks/c10"
 	_ "verifmc/checks/c12"
 	_ "verifmc/checks/c13"
 	_ "verifmc/checks/c14"
